@@ -49,9 +49,14 @@ class Gen:
             return self.int_atom(vars_)
         if r < 0.25 + self.effects:
             return f"{self.r.choice('fgh')}({self.int_expr(vars_, d - 1)})"
-        if r < 0.70:
+        if r < 0.66:
             op = self.r.choice(["+", "-", "*", "+", "-"])
             return f"({self.int_expr(vars_, d - 1)} {op} {self.int_expr(vars_, d - 1)})"
+        if r < 0.70:
+            # partial but pure operators: reaching them with a zero divisor raises in Python (and panics in Guppy), which makes
+            # evaluation order and short-circuiting observable without any opaque call
+            op = self.r.choice(["//", "%"])
+            return f"({self.int_atom(vars_)} {op} {self.int_atom(vars_)})"
         if r < 0.82:
             return f"({self.int_expr(vars_, d - 1)} if {self.bool_expr(vars_, d - 1)} else {self.int_expr(vars_, d - 1)})"
         if r < 0.88:
@@ -72,9 +77,18 @@ class Gen:
             return f"({self.bool_expr(vars_, d - 1)} and {self.bool_expr(vars_, d - 1)})"
         if r < 0.80:
             return f"({self.bool_expr(vars_, d - 1)} or {self.bool_expr(vars_, d - 1)})"
-        if r < 0.92:
+        if r < 0.88:
             o1, o2 = self.r.choice(["<", "<=", "=="]), self.r.choice(["<", "<=", "!="])
             return f"{self.int_expr(vars_, d - 1)} {o1} {self.int_expr(vars_, d - 1)} {o2} {self.int_expr(vars_, d - 1)}"
+        if r < 0.93:
+            o1, o2, o3 = self.r.choice(["<", "<=", "=="]), self.r.choice(["<", "<=", "!="]), self.r.choice(["<", ">", "!="])
+            return (f"{self.int_expr(vars_, d - 1)} {o1} {self.int_expr(vars_, d - 1)} {o2} {self.int_expr(vars_, d - 1)} "
+                    f"{o3} {self.int_expr(vars_, d - 1)}")
+        if r < 0.97:
+            # a literal that decides the outcome next to an operand that still has to be evaluated
+            lit, op = self.r.choice([("False", "and"), ("True", "or"), ("True", "and"), ("False", "or")])
+            e = self.bool_expr(vars_, d - 1)
+            return f"({e} {op} {lit})" if self.r.random() < 0.6 else f"({lit} {op} {e})"
         return self.r.choice(["True", "False"])
 
     # ------------------------------------------------------------------ statements
@@ -155,6 +169,14 @@ def gen_program(kind: str, idx: int, seed: int) -> str:
 
 C03_FIXED = [
     """
+def q6(x: int, y: int) -> int:
+    if 0 < x < 10 // x < 5 != y:
+        return 1
+    if y != 0 and 100 % y == 1:
+        return 2
+    return 3 // (x - 9)
+""",
+    """
 def q0(x: int, y: int) -> int:
     s = 0
     n = 0
@@ -232,6 +254,35 @@ def q5(x: int, y: int) -> int:
 ]
 
 C05_FIXED = [
+    """
+def e9(x: int, y: int) -> int:
+    if f(x) > 0 and False:
+        emit(1)
+    b = g(y) > 0 or True
+    n = 0
+    while n < 2 and not (h(n) > 0 or True):
+        n += 1
+    return 1 if b else 0
+""",
+    """
+def e10(x: int, y: int) -> int:
+    a = 0
+    if f(1) > 0 and g(2) > 0 and False:
+        a = 1
+    if True or h(3) > 0:
+        a += 2
+    if False and f(4) > 0:
+        a += 4
+    return a
+""",
+    """
+def e11(x: int, y: int) -> int:
+    if 0 < x < 10 // x < 5:
+        return 1
+    if y != 0 and 100 % y == 1 or x == 2:
+        return 2
+    return 0
+""",
     """
 def e0(x: int, y: int) -> int:
     return f(1) + g(2) * h(3)
